@@ -365,6 +365,8 @@ def cache(ctx):
     writers = {}
     for fn in [n for n in cls.body if isinstance(n, ast.FunctionDef)]:
         q = fn.name + ('.setter' if is_setter(fn) else '')
+        # local names bound to the stored array (vects = self.__vects) write to it just the same
+        alias = {t.id for s in ast.walk(fn) if isinstance(s, ast.Assign) and norm(s.value) == 'self.__vects' for t in s.targets if isinstance(t, ast.Name)}
         for s in ast.walk(fn):
             tg = []
             if isinstance(s, ast.Assign):
@@ -373,9 +375,11 @@ def cache(ctx):
                 tg = [s.target]
             for t in tg:
                 base = t
+                sub = False
                 while isinstance(base, ast.Subscript):
                     base = base.value
-                if norm(base) == 'self.__vects':
+                    sub = True
+                if norm(base) == 'self.__vects' or (sub and isinstance(base, ast.Name) and base.id in alias) or (isinstance(s, ast.AugAssign) and isinstance(base, ast.Name) and base.id in alias):
                     writers.setdefault(q, []).append(s)
     ctx.ob('CACHE', BOX + '::Box', 'the stored cell vectors are written only by the constructor and the vects setter', set(writers) == {'__init__', 'vects.setter'},
            'writers: %s' % sorted(writers), key='writers')
@@ -456,9 +460,17 @@ def convert(ctx):
         muts, eff = effects.param_mutations(fn, {pname})
         ctx.ob('CONVERT', BOX + '::Box.' + fn.name, 'the conversion does not write to the array it is given', not muts,
                '; '.join('%s (line %d)' % (w, n.lineno) for n, r, w in muts), node=muts[0][0] if muts else fn, key='no-mutate ' + fn.name)
-        # dimension refusal
-        ok = any(isinstance(s, ast.If) and 'shape[-1] != 3' in norm(s.test) and any(isinstance(x, ast.Raise) for x in s.body) for s in fn.body)
-        ctx.ob('CONVERT', BOX + '::Box.' + fn.name, 'inputs whose last dimension is not 3 are refused', ok, node=fn, key='dim refusal ' + fn.name)
+        # dimension refusal, by evaluation on points with two and with four components
+        acc = []
+        for shp in ((2,), (5, 4)):
+            try:
+                if [q_ for q_ in SymEval(module_aliases(ctx.mod(BOX))).run_fn(fn, [box, symarray('w', shp, real=True)], {}) if q_.done == 'return']:
+                    acc.append(shp)
+            except WouldRaise:
+                pass
+            except Opaque as e:
+                raise AnalysisError('Box.%s on points of shape %s: %s' % (fn.name, shp, e))
+        ctx.ob('CONVERT', BOX + '::Box.' + fn.name, 'inputs whose last dimension is not 3 are refused', not acc, 'accepted shapes %s' % acc, node=fn, key='dim refusal ' + fn.name)
 
 
 def inside(ctx):
